@@ -101,7 +101,7 @@ func runC11(r *vk.Run) {
 		return
 	}
 
-	r.Phase("groups", r.N(8000, 150000), func(c *vk.Case) {
+	r.Phase("groups", r.N(8000, 1200000), func(c *vk.Case) {
 		rng := c.Rng
 		steps := rng.Range(1, 4)
 		recs := genVectorRecs(rng, steps, 8)
@@ -187,7 +187,7 @@ func runC11(r *vk.Run) {
 		}
 	})
 	// large vectors: sorting and top-k over many members (library sorts switch algorithm with size)
-	r.Phase("large", r.N(300, 6000), func(c *vk.Case) {
+	r.Phase("large", r.N(300, 60000), func(c *vk.Case) {
 		rng := c.Rng
 		n := rng.Range(13, 120)
 		var recs []Rec
